@@ -184,7 +184,7 @@ class MpsWalk:
         if len(res.samples) < 4:
             res.samples.append({'url': url, 'periods': [(p.id, float(p.start or 0), float(p.duration or 0)) for p in periods]})
 
-    def walk_direct_time(self, label, rep, sf, key, starts, k0, rp, rng) -> None:
+    def walk_direct_time(self, label, rep, sf, key, starts, k0, rp, rng, target=None) -> None:
         """$Time$ requests built by hand, independent of what the manifest's SegmentTimeline says:
         time t counts from the Period's first source segment (the handler's own convention), so
         t_j = start of stored segment k0+j minus start of segment k0 delivers stored segment k0+j
@@ -212,29 +212,46 @@ class MpsWalk:
                 return
             payload = r.data[frag.mdat.body:frag.mdat.end]
             ks = self.index.payload[key].get(hashlib.sha1(payload).digest(), [])
-            if (k0 + j) not in ks:
+            # the handler resolves a time to the stored segment whose start is nearest to
+            # (source offset + t). With an offset inside a segment and irregular durations that is
+            # not always k0+j (offset just short of mid-segment, next segment shorter): accept
+            # every segment whose start is within a millisecond of being the nearest
+            want = {k0 + j}
+            if target is not None:
+                dist = [abs(starts[k] - (target + t)) for k in range(n)]
+                tol = max(2, rep.timescale // 1000)
+                want = {k for k in range(n) if dist[k] <= min(dist) + tol}
+                if (k0 + j) not in want:
+                    res.count('direct_time.nearest_is_not_k0_plus_j')
+            got = [k for k in ks if k in want]
+            if not got:
                 res.violation('period-direct-time-delivers-wrong-source-segment',
-                              f'{label}: {what} delivered stored segment {[k + 1 for k in ks]}, expected {k0 + j + 1}', rp)
+                              f'{label}: {what} delivered stored segment {[k + 1 for k in ks]}, '
+                              f'expected {sorted(k + 1 for k in want)}', rp)
                 return
+            j_seq = got[0] - k0
             tfdt = frag.tfdt[1] if frag.tfdt else None
             if tfdt != t:
                 res.violation('period-direct-time-decode-time-differs', f'{label}: {what}: tfdt {tfdt}', rp)
                 return
-            if frag.sequence_number != rep.start_number + j:
+            if frag.sequence_number != rep.start_number + j_seq:
                 res.violation('period-direct-time-sequence-number-differs',
                               f'{label}: {what}: mfhd sequence number {frag.sequence_number}, '
-                              f'expected startNumber {rep.start_number} + {j}', rp)
+                              f'expected startNumber {rep.start_number} + {j_seq}', rp)
                 return
             res.count('direct_time.held')
         # one and two segment durations past the end of the source
         last = sf.segments[-1].duration
         for extra in (0, last):
-            t = starts[-1] + last - starts[k0] + extra
+            # counted from the source offset itself when it is known: relative to segment k0 a time
+            # just short of the end can still be nearest to the last segment
+            off = starts[k0] if target is None else min(starts[k0], int(target))
+            t = starts[-1] + last - off + extra
             r = self.get(iu.replace('/init.', f'/time/{t}.'))
             res.count('direct_time.past_end')
             if r.status_code != 404:
                 res.violation('period-direct-time-past-source-end-not-404',
-                              f'{label}: direct $Time$={t} (source ends at {starts[-1] + last - starts[k0]}) -> {r.status_code}', rp,
+                              f'{label}: direct $Time$={t} (source ends {starts[-1] + last - off} after the offset) -> {r.status_code}', rp,
                               exception=self.env.rec.last_exception)
                 return
 
@@ -334,7 +351,7 @@ class MpsWalk:
                               f'{label}: {what}: tfdt {tfdt}, previous ended at {expect_tfdt}', rp)
                 break
             expect_tfdt = (tfdt or 0) + dur
-        self.walk_direct_time(label, rep, sf, key, starts, k0, rp, rng)
+        self.walk_direct_time(label, rep, sf, key, starts, k0, rp, rng, target=target)
         # beyond the end of the source media
         if rep.timeline is None:
             beyond = rep.start_number + (len(sf.segments) - k0) + rng.randrange(0, 3)
@@ -382,7 +399,10 @@ def run_shard(ctx: ShardCtx) -> ShardResult:
                 role = {'video': 'main', 'audio': 'main', 'text': 'main'}
                 for p_ in definition['periods']:
                     if rng.random() < 0.6:
-                        p_['start'] = rng.choice([6.5, 10.75, 2.25, 5.5, 9.9, 13.125])
+                        # 4k+2 s is within a few milliseconds of the middle of an audio segment: which stored
+                        # segment is nearest then depends on the (irregular) durations around it
+                        p_['start'] = rng.choice([6.5, 10.75, 2.25, 5.5, 9.9, 13.125,
+                                                  2, 6, 10, 14, 18, 22, 26, 30, 21.99, 22.01])
                         p_['duration'] = min(p_['duration'], SRC_DUR[p_['stream']] - p_['start'] - 2)
                 info = add_mps_db(env, definition['name'], [
                     {'pid': p_['pid'], 'stream': p_['stream'], 'start': p_['start'], 'duration': p_['duration'],
